@@ -14,6 +14,30 @@ CORR = ("Correspondence: the real code (imported from /repo) and the executable 
         "on the same generated cases and are diffed; the property is also checked directly "
         "(spec layer) so a disagreement comes with a failing input. ")
 
+TRANSLATOR = {
+    'C04': "find_token, find_token_reverse, try_find_line",
+    'C11': "find_token, find_token_reverse, try_find_line",
+    'C13': "find_token, find_token_reverse, try_find_line",
+    'C16': "the window part of __init__ + since_date, _line_date_is_valid, apply_to_line",
+    'C18': "num_parallel_tasks",
+}
+
+
+def translator_text(pid):
+    fns = TRANSLATOR.get(pid)
+    if not fns:
+        return '', '', ''
+    return (f"Translator tie (DESIGN 0.48): {fns} are re-translated from /repo's source into Lean "
+            "on every run (harness/vh/pytolean.py) and proved EQUAL to the model functions "
+            "(bridge theorems Sk.Gen.bridge_*, re-checked against the new text when the source "
+            "changed; a concrete disagreement is replayed on the real code). ",
+            "The translator and SkModel/Gen/PyPrim.lean (meaning of file read/seek, bytes.find, "
+            "Python integer operators) are trusted for the bridge; a function that leaves the "
+            "translatable fragment falls back to the correspondence tie alone (recorded in the "
+            "evidence). ",
+            " + source-to-Lean translation with bridge theorems")
+
+
 CHECKS = {
     'C01': dict(
         text="Lean theorems C01_simple_exact/_meta + runTask_proj: for every line table and "
@@ -203,7 +227,11 @@ def main():
     for p in props:
         pid = p['id']
         if pid in CHECKS:
-            c = CHECKS[pid]
+            c = dict(CHECKS[pid])
+            tt, tn, tq = translator_text(pid)
+            c['text'] = c['text'].rstrip() + (' ' + tt if tt else '')
+            c['note'] += (' ' + tn if tn else '')
+            c['technique'] += tq
             checks.append({
                 'property_id': pid,
                 'quick_cmd': f"./check {pid} --tier quick",
@@ -237,10 +265,12 @@ def main():
         },
         'engines': [{
             'name': 'lean-model+correspondence',
-            'path': 'lean/ (model, specs, theorems, driver), harness/ (correspondence), check',
+            'path': 'lean/ (model, specs, theorems, Gen/ = translated source + bridge theorems, driver), harness/ (correspondence, pytolean translator), check',
             'serves_properties': [c['property_id'] for c in checks],
             'kind_free_text': "hand-written executable Lean 4 model + kernel-checked theorems; "
-                              "differential correspondence check of the model against /repo",
+                              "differential correspondence check of the model against /repo; "
+                              "for seven functions also a Python-to-Lean translator whose output "
+                              "is proved equal to the model (bridge theorems)",
         }],
         'checks': checks,
         'not_applicable': na,
